@@ -692,6 +692,18 @@ class SReal:
     def __trunc__(self):
         return sym_int(self)
 
+    def __round__(self, ndigits=None):
+        """round-half-even like Python's round() on the exact rational"""
+        c = self.concrete()
+        if c is not None:
+            return round(c) if ndigits is None else round(float(c), ndigits)
+        if ndigits is not None:
+            raise Unsupported("round(SReal, ndigits)")
+        n, d = _z(self.num), _z(self.den)
+        q = (2 * n + d) / (2 * d)                       # floor(x + 1/2), d > 0
+        tie = (2 * n + d) % (2 * d) == 0
+        return SInt.wrap(z3.If(z3.And(tie, q % 2 != 0), q - 1, q))
+
     def __repr__(self):
         return "<SReal>"
 
